@@ -581,3 +581,173 @@ func RNegFresh(c *core.Ctx) {
 		c.Anchor("an assignment to CharSet.negate outside CharSet's methods")
 	}
 }
+
+// ---------------------------------------------------------------------------
+// R-FLIPADD: canonicalize rewrites "everything but one range" as a negated
+// class.  It runs at the end of every adding method, i.e. while a class may
+// still be receiving members; a member added after the rewrite would land in
+// the complement.  Typestate: every method that appends to the ranges or
+// categories of its receiver first passes through the routine that undoes the
+// rewrite (a CharSet method that clears negate), itself or in all its callers.
+// ---------------------------------------------------------------------------
+
+func RFlipAdd(c *core.Ctx) {
+	c.Rule("R-FLIPADD", "CharSet methods that canonicalize (and may thereby switch the class to its negated form) are also the methods that add members; therefore every method that appends to the receiver's ranges or categories is preceded on every path — in the method or at every call site of it — by a call to the routine that restores the positive form (a CharSet method that clears negate)", 5)
+	p := c.P
+	neg := p.LookupField("syntax", "CharSet", "negate")
+	rng := p.LookupField("syntax", "CharSet", "ranges")
+	cats := p.LookupField("syntax", "CharSet", "categories")
+	if neg == nil || rng == nil || cats == nil {
+		c.Anchor("syntax.CharSet.negate / ranges / categories")
+		return
+	}
+	isRecv := func(fn *ssa.Function, v ssa.Value) bool {
+		return len(fn.Params) > 0 && v == fn.Params[0]
+	}
+	var methods []*ssa.Function
+	for _, fn := range p.ModuleFuncs() {
+		if recv := fn.Signature.Recv(); recv != nil {
+			if _, isPtr := recv.Type().(*types.Pointer); isPtr {
+				if _, nm := core.NamedOf(recv.Type()); nm == "CharSet" {
+					methods = append(methods, fn)
+				}
+			}
+		}
+	}
+	flipper, restorer := map[*ssa.Function]bool{}, map[*ssa.Function]bool{}
+	type addSite struct {
+		ins ssa.Instruction
+		f   *types.Var
+	}
+	adders := map[*ssa.Function][]addSite{}
+	for _, fn := range methods {
+		for _, b := range fn.Blocks {
+			for _, ins := range b.Instrs {
+				st, ok := ins.(*ssa.Store)
+				if !ok {
+					continue
+				}
+				fa, ok := st.Addr.(*ssa.FieldAddr)
+				if !ok || !isRecv(fn, fa.X) {
+					continue
+				}
+				switch core.FieldVarOfAddr(fa) {
+				case neg:
+					if k, isC := st.Val.(*ssa.Const); isC && k.Value != nil {
+						if k.Value.String() == "true" {
+							flipper[fn] = true
+						} else {
+							restorer[fn] = true
+						}
+					} else {
+						flipper[fn] = true
+					}
+				case rng, cats:
+					// an append whose first operand is the field's own value
+					if call, ok := st.Val.(*ssa.Call); ok {
+						if bi, ok := call.Call.Value.(*ssa.Builtin); ok && bi.Name() == "append" {
+							if ld, ok := call.Call.Args[0].(*ssa.UnOp); ok {
+								if fa2, ok := ld.X.(*ssa.FieldAddr); ok && isRecv(fn, fa2.X) && core.FieldVarOfAddr(fa2) == core.FieldVarOfAddr(fa) {
+									adders[fn] = append(adders[fn], addSite{st, core.FieldVarOfAddr(fa)})
+								}
+							}
+						}
+					}
+				}
+			}
+		}
+	}
+	if len(flipper) == 0 {
+		c.Anchor("a CharSet method that switches negate on (canonicalize)")
+		return
+	}
+	// call sites among the methods (receiver passed on)
+	type csite struct {
+		caller *ssa.Function
+		call   *ssa.Call
+	}
+	callers := map[*ssa.Function][]csite{}
+	callsRestorer := func(ins ssa.Instruction) bool {
+		call, ok := ins.(*ssa.Call)
+		if !ok {
+			return false
+		}
+		cal := call.Call.StaticCallee()
+		return cal != nil && restorer[cal]
+	}
+	for _, fn := range methods {
+		for _, b := range fn.Blocks {
+			for _, ins := range b.Instrs {
+				if call, ok := ins.(*ssa.Call); ok {
+					if cal := call.Call.StaticCallee(); cal != nil && len(call.Call.Args) > 0 && isRecv(fn, call.Call.Args[0]) {
+						callers[cal] = append(callers[cal], csite{fn, call})
+					}
+				}
+			}
+		}
+	}
+	// does a flipper run between adds at all? (some adder reaches a flipper)
+	var restoredBefore func(fn *ssa.Function, at ssa.Instruction, depth int) (bool, string)
+	restoredBefore = func(fn *ssa.Function, at ssa.Instruction, depth int) (bool, string) {
+		// a restorer call in the same block before `at`, or in a dominating block
+		for _, b := range fn.Blocks {
+			for _, ins := range b.Instrs {
+				if !callsRestorer(ins) {
+					continue
+				}
+				if b == at.Block() {
+					for _, x := range b.Instrs {
+						if x == ins {
+							return true, ""
+						}
+						if x == at {
+							break
+						}
+					}
+				} else if b.Dominates(at.Block()) {
+					return true, ""
+				}
+			}
+		}
+		if depth >= 3 {
+			return false, "call chain too deep"
+		}
+		cs := callers[fn]
+		if len(cs) == 0 {
+			return false, "no call to a routine that restores the positive form precedes it"
+		}
+		for _, s := range cs {
+			if s.caller == fn {
+				continue
+			}
+			if ok, _ := restoredBefore(s.caller, s.call, depth+1); !ok {
+				return false, fmt.Sprintf("reached from %s (%s) without a preceding restore", core.SSAName(s.caller), p.Pos(s.call.Pos()))
+			}
+		}
+		return true, ""
+	}
+	var fns []*ssa.Function
+	for fn := range adders {
+		fns = append(fns, fn)
+	}
+	sort.Slice(fns, func(i, j int) bool { return core.SSAName(fns[i]) < core.SSAName(fns[j]) })
+	n := 0
+	for _, fn := range fns {
+		if flipper[fn] || restorer[fn] {
+			continue // canonicalize compacts its own list; the restorer rebuilds it
+		}
+		name := core.SSAName(fn)
+		c.Visit(name)
+		sites := adders[fn]
+		sort.Slice(sites, func(i, j int) bool { return sites[i].ins.Pos() < sites[j].ins.Pos() })
+		for i, s := range sites {
+			n++
+			ok, why := restoredBefore(fn, s.ins, 0)
+			c.Check(ok, fmt.Sprintf("%s / append #%d to %s happens on the positive form", name, i+1, s.f.Name()), s.ins.Pos(),
+				"the class may already have been rewritten as a negated one by canonicalize (run by an earlier add): %s; the member is then added to the excluded set", why)
+		}
+	}
+	if n == 0 {
+		c.Anchor("a CharSet method appending to ranges/categories")
+	}
+}
